@@ -301,6 +301,12 @@ def p_window_does_not_fit(c):
     if where == "sliding":
         out += expect_accepted(sut(lambda: list(SlidingWindowSplitter(fh=c["fh"], window_length=n - h).split(y))), "sliding.split")
         out += expect_rejected(sut(lambda: list(SlidingWindowSplitter(fh=c["fh"], window_length=n - h + 1 + c["excess"]).split(y))), "window_too_long:sliding.split")
+    elif where == "sliding_initial":
+        # the regular window fits, the initial window does not
+        wl = max(1, min(c.get("wl_small", 2), n - h - 1))
+        out += expect_accepted(sut(lambda: list(SlidingWindowSplitter(fh=c["fh"], window_length=wl, initial_window=n - h).split(y))), "sliding_initial.split")
+        out += expect_rejected(sut(lambda: list(SlidingWindowSplitter(fh=c["fh"], window_length=wl, initial_window=n - h + 1 + c["excess"]).split(y))),
+                               "initial_window_too_long:sliding.split")
     elif where == "expanding":
         out += expect_accepted(sut(lambda: list(ExpandingWindowSplitter(fh=c["fh"], initial_window=n - h).split(y))), "expanding.split")
         out += expect_rejected(sut(lambda: list(ExpandingWindowSplitter(fh=c["fh"], initial_window=n - h + 1 + c["excess"]).split(y))), "window_too_long:expanding.split")
@@ -441,8 +447,9 @@ def cases(draw, pair):
         c["strategy"] = draw(st.sampled_from(["last", "mean"]))
         c["strategy_r"] = draw(st.sampled_from(["direct", "recursive", "multioutput", "dirrec"]))
     elif pair == "window_does_not_fit":
-        c["where"] = draw(st.sampled_from(["sliding", "expanding", "cutoff", "naive", "reduce"]))
+        c["where"] = draw(st.sampled_from(["sliding", "sliding_initial", "expanding", "cutoff", "naive", "reduce"]))
         c["excess"] = draw(st.integers(0, 3))
+        c["wl_small"] = draw(st.integers(1, 4))
         c["strategy_r"] = draw(st.sampled_from(["direct", "recursive", "multioutput", "dirrec"]))
     elif pair == "unknown_name":
         c["where"] = draw(st.sampled_from(["naive", "reduction_strategy", "reduction_scitype", "evaluate", "aggfunc"]))
